@@ -264,18 +264,18 @@ def gen_seq(tier, seed):
             if thorough:
                 lvl1 = first
             else:
-                keep = (0, 1, 4, 7, L) if rid == "p10" else (3, L)
+                keep = (1, 4, L) if rid == "p10" else (3, L)
                 lvl1 = [o for o in first if not _plain(o) or (o[2] - o[1]) in keep]
             for o1 in lvl1:
                 pos, rev, st = view_apply(P, *view_root(P), o1)
                 m = len(pos)
                 second = seq_step1(m, rich=False) + (seq_other_ops(m, rid) if m >= 2 else [["rc"], ["cp"], ["dg"]])
                 if not thorough:
-                    second = second[::2] if m > 5 else second
+                    second = second[::3] if m > 5 else second[::2]
                 hist += [[o1, o2] for o2 in second]
             for h in hist:
                 for fs in featsets_for(h, names):
-                    if not thorough and len(h) == 2 and fs not in ("a", "b", "e", "f", "*"):
+                    if not thorough and len(h) == 2 and fs not in ("b", "e", "*"):
                         continue
                     yield [new, rid, "db", fs, h]
             # features loaded from a GFF file: depth <= 1
@@ -283,7 +283,7 @@ def gen_seq(tier, seed):
                 if len(h) <= 1 and (thorough or len(h) == 0 or not _plain(h[0]) or (h[0][2] - h[0][1]) % 3 == 1):
                     yield [new, rid, "gff", "*", h]
             # depth 3 seeded sample
-            n3 = 1500 if thorough else 60
+            n3 = 4000 if thorough else 60
             for _ in range(n3):
                 pos, rev, st = view_root(P)
                 h = []
@@ -688,9 +688,6 @@ def gen_aln(tier, seed):
         def ops_for(m, nms):
             o = [["s", a, b] for a in range(m + 1) for b in range(a + 1, m + 1)]
             o += [["rc"], ["cp"], ["dc"]]
-            o += [["take", [n]] for n in nms] if len(nms) > 1 else []
-            if len(nms) > 2:
-                o += [["take", nms[:2]], ["take", nms[::-1]]]
             return o
         hist = [[]] + [[o] for o in ops_for(L, names)]
         lvl1 = ops_for(L, names)
@@ -710,7 +707,7 @@ def gen_aln(tier, seed):
                     if load == "db" and (len(h) == 2 or fs != "*") and not thorough:
                         continue
                     yield [rid, load, fs, h]
-        n3 = 600 if thorough else 40
+        n3 = 1500 if thorough else 40
         for _ in range(n3):
             cols, rev, nms = list(range(L)), False, names
             h = []
@@ -892,6 +889,300 @@ def contract_aln(case):
     return res
 
 
+# ================================================================================================ alignment -> sequences
+def foreign_features(x, names):
+    """names of features of OTHER sequences (or of the alignment) that the sequence x returns"""
+    out = []
+    for n in names:
+        try:
+            if list(x.get_features(name=n, allow_partial=True)):
+                out.append(n)
+        except Exception:
+            out.append(n)
+    return out
+
+
+def gen_aln_seqs(tier, seed):
+    """[root, history of the alignment, terminal]; terminal = [kind, name], kind = get_seq (the sequence out of the
+    alignment) | degap-coll (the degapped collection is queried) | degap-seq (a sequence of the degapped collection)"""
+    thorough = tier == "thorough"
+    for rid, R in ALN_ROOTS.items():
+        if rid == "a8z" and not thorough:
+            continue
+        names = list(R)
+        L = len(R[names[0]])
+        slices = [["s", a, b] for a in range(L + 1) for b in range(a + 1, L + 1)]
+        hist = [[], [["rc"]], [["cp"]]] + [[o] for o in slices]
+        mids = slices if thorough else [o for o in slices if (o[2] - o[1]) in (3, L - 2)]
+        hist += [[o, ["rc"]] for o in mids] + [[["rc"], o] for o in mids]
+        if thorough:
+            hist += [[o, ["s", 1, o[2] - o[1] - 1]] for o in mids if o[2] - o[1] >= 3]
+        for h in hist:
+            for n in names:
+                yield [rid, h, ["get_seq", n]]
+                yield [rid, h, ["degap-coll", n]]
+                yield [rid, h, ["degap-seq", n]]
+
+
+def contract_aln_seqs(case):
+    """the sequence taken out of an alignment view (Alignment.get_seq) or out of its degapped collection
+    (Alignment.degap) still answers feature queries for the residues it displays"""
+    rid, hist, term = case
+    R = ALN_ROOTS[rid]
+    names = list(R)
+    L = len(R[names[0]])
+    kind, n = term
+    tag = f"aln-seq/{kind}"
+    a, feats = make_root_aln(rid, "*", "add")
+    cols, rev, nms = list(range(L)), False, names
+    for op in hist:
+        cols, rev, nms = aln_view_apply(R, cols, rev, nms, op)
+        try:
+            a = aln_real_apply(a, op)
+        except Exception:
+            return ("skip",)           # aln_views reports failing histories
+    if a.to_dict() != aln_display(R, cols, rev, nms):
+        return ("skip",)
+    # model of the sequence: the degapped root row, the indices of its residues that the view displays
+    P = "".join(ch for ch in R[n] if ch not in GAPS)
+    index, k = {}, 0
+    for c, ch in enumerate(R[n]):
+        if ch not in GAPS:
+            index[c] = k
+            k += 1
+    pos = [index[c] for c in cols if c in index]
+    sig = ("rev" if rev else "fwd") + ("-sub" if len(pos) < len(P) else "-whole")
+    fdict = {f[0]: (f[0], f[2], f[3], f[4]) for f in feats if f[1] == n}
+    try:
+        if kind == "get_seq":
+            x = a.get_seq(n)
+        else:
+            coll = a.degap()
+            x = coll.get_seq(n)
+    except Exception as e:
+        return ("fail", f"{tag}/raises:{type(e).__name__}/view={sig}", f"{case}: {kind} raised {type(e).__name__}: {e}")
+    if str(x) != display(P, pos, rev):
+        return ("fail", f"{tag}/displays/view={sig}",
+                f"{case}: {kind}({n!r}) displays {str(x)!r}, the view holds {display(P, pos, rev)!r} of that sequence")
+    if kind == "degap-coll":
+        for partial in (True, False):
+            ctx = f"{case}: degap().get_features(seqid={n!r}, allow_partial={partial})"
+            try:
+                got = list(coll.get_features(seqid=n, allow_partial=partial))
+            except Exception as e:
+                return ("fail", f"{tag}/collection.get_features/raises:{type(e).__name__}/view={sig}",
+                        f"{ctx} raised {type(e).__name__}: {e}")
+            gn = [f.name for f in got]
+            for fn, fd in fdict.items():
+                Fabs = feat_positions(fd[2])
+                mm = membership(Fabs, 0, pos, partial) if pos else (False, True)
+                lab = f"{len(fd[2])}span:{state_of(Fabs, 0, pos)}"
+                if mm[0] and fn not in gn:
+                    return ("fail", f"{tag}/collection.get_features/missing/partial={partial}/{lab}/view={sig}",
+                            f"{ctx} returned {gn}; {fn!r} {fd[2]}{fd[3]} must be returned, {n!r} displays indices {pos}")
+                if fn in gn and not mm[1]:
+                    return ("fail", f"{tag}/collection.get_features/spurious/partial={partial}/{lab}/view={sig}",
+                            f"{ctx} returned {gn}; {fn!r} {fd[2]}{fd[3]} does not touch indices {pos} of {n!r}")
+            for f in got:
+                if f.name not in fdict:
+                    return ("fail", f"{tag}/collection.get_features/other-sequence-feature/view={sig}",
+                            f"{ctx} returned {f.name!r}, which is not a feature of {n!r}")
+                fd = fdict[f.name]
+                exp = feat_residues(P, 0, fd[2], fd[3], set(pos))
+                lab = f"{feat_kind(fd[2], fd[3])}:{state_of(feat_positions(fd[2]), 0, pos)}"
+                try:
+                    sl = str(f.get_slice())
+                except Exception as e:
+                    return ("fail", f"{tag}/collection.get_slice/raises:{type(e).__name__}/{lab}/view={sig}",
+                            f"{ctx}: get_slice of {f.name!r} raised {type(e).__name__}: {e}")
+                if sl != exp:
+                    return ("fail", f"{tag}/collection.get_slice/residues/{lab}/view={sig}",
+                            f"{ctx}: {f.name!r} {fd[2]}{fd[3]} slices to {sl!r}, spec {exp!r}")
+        return ("ok", bool(fdict))
+    # the sequence, with every window; features of other sequences must not show up
+    others = foreign_features(x, [f[0] for f in feats if f[0] not in fdict])
+    if others:
+        return ("fail", f"{tag}/seq.get_features/other-sequence-feature/view={sig}",
+                f"{case}: {kind}({n!r}).get_features(allow_partial=True) returns {others}, features of other sequences")
+    return check_queries(x, case, tag, sig, P, 0, pos, rev, 1, fdict)
+
+
+# ================================================================================================ sequence collections
+COLL_ROOTS = {
+    "c6": {"x": "ACGTTA", "y": "CGGTAC"},
+    "c8g": {"x": "AC--GTTA", "y": "-CGGT-AC"},      # a collection may hold gapped sequences: degap() applies
+}
+# (name, seqid, biotype, spans in the coordinates of the stored sequence, strand)
+COLL_FEATS = {
+    "c6": [("g", "x", "gene", [(1, 4)], "+"), ("k", "x", "gene", [(2, 6)], "-"), ("j", "y", "gene", [(0, 3)], "-"),
+           ("h", "y", "cds", [(0, 2), (4, 6)], "+")],
+    "c8g": [("g", "x", "gene", [(1, 6)], "+"), ("k", "x", "gene", [(4, 8)], "-"), ("j", "y", "gene", [(1, 5)], "+"),
+            ("h", "y", "cds", [(1, 3), (6, 8)], "-")],
+}
+
+
+def make_root_coll(new, rid, load):
+    from cogent3 import make_unaligned_seqs
+    R = COLL_ROOTS[rid]
+    c = make_unaligned_seqs(dict(R), moltype="dna", new_type=new)
+    feats = COLL_FEATS[rid]
+    if load == "add":
+        for name, seqid, bt, spans, strand in feats:
+            c.add_feature(seqid=seqid, biotype=bt, name=name, spans=[list(x) for x in spans], strand=strand)
+    else:
+        from cogent3.core.annotation_db import BasicAnnotationDb
+        db = BasicAnnotationDb()
+        for name, seqid, bt, spans, strand in feats:
+            db.add_feature(seqid=seqid, biotype=bt, name=name, spans=[list(x) for x in spans], strand=strand)
+        c.annotation_db = db
+    return c, feats
+
+
+def coll_real_apply(c, op):
+    k = op[0]
+    if k == "rc":
+        return c.rc()
+    if k == "dc":
+        return _copy.deepcopy(c)
+    if k == "cp":
+        return c.copy()
+    if k == "dg":
+        return c.degap()
+    raise ValueError(op)
+
+
+def gen_coll(tier, seed):
+    """[new, root, load, collection history, terminal]; terminal = ["coll"] | ["seq", name, sequence op or None]"""
+    thorough = tier == "thorough"
+    hists = [[], [["rc"]], [["dc"]], [["dg"]], [["rc"], ["rc"]], [["dc"], ["rc"]], [["rc"], ["dg"]], [["dg"], ["rc"]]]
+    for new in (False, True):
+        for rid, R in COLL_ROOTS.items():
+            for load in ("add", "db"):
+                for h in hists + ([] if new else [[["cp"]], [["cp"], ["rc"]]]):
+                    if load == "db" and len(h) == 2 and not thorough:
+                        continue
+                    yield [new, rid, load, h, ["coll"]]
+                    for n in R:
+                        P = R[n]
+                        pos, rev, st = view_root(P)
+                        for o in h:
+                            pos, rev, st = view_apply(P, pos, rev, st, o)
+                        m = len(pos)
+                        yield [new, rid, load, h, ["seq", n, None]]
+                        sops = [["s", a, b, None] for a in range(m) for b in range(a + 1, m + 1)]
+                        if not thorough:
+                            sops = [o for o in sops if (o[2] - o[1]) in (2, m - 2)]
+                        for o in sops + [["rc"]]:
+                            yield [new, rid, load, h, ["seq", n, o]]
+
+
+def contract_coll(case):
+    new, rid, load, hist, term = case
+    R = COLL_ROOTS[rid]
+    tag = f"coll/{'new' if new else 'old'}/{load}"
+    c, feats = make_root_coll(new, rid, load)
+    state = {n: view_root(R[n]) for n in R}
+    done = []
+    for op in hist:
+        done.append(op)
+        try:
+            c = coll_real_apply(c, op)
+        except Exception as e:
+            return ("fail", f"{tag}/history/{op[0]}/raises:{type(e).__name__}/ops={ops_sig(done[:-1])}",
+                    f"{case}: collection step {op} raised {type(e).__name__}: {e}")
+        state = {n: view_apply(R[n], *state[n], op) for n in R}
+    hsig = "ops=" + ops_sig(hist)
+    shown = {n: display(R[n], state[n][0], state[n][1]) for n in R}
+    try:
+        real_shown = c.to_dict()
+    except Exception as e:
+        return ("fail", f"{tag}/to_dict/raises:{type(e).__name__}/{hsig}", f"{case}: to_dict raised {e}")
+    if real_shown != shown:
+        return ("skip",)
+    if term[0] == "coll":
+        nontrivial = False
+        for seqid in [None] + list(R):
+            for partial in (True, False):
+                kw = {} if seqid is None else {"seqid": seqid}
+                ctx = f"{case}: collection {shown} get_features({kw}, allow_partial={partial})"
+                try:
+                    got = list(c.get_features(allow_partial=partial, **kw))
+                except Exception as e:
+                    return ("fail", f"{tag}/collection.get_features/raises:{type(e).__name__}/{hsig}",
+                            f"{ctx} raised {type(e).__name__}: {e}")
+                gn = [f.name for f in got]
+                if len(set(gn)) != len(gn):
+                    return ("fail", f"{tag}/collection.get_features/duplicates/{hsig}", f"{ctx} returned {gn}")
+                for name, n, bt, spans, strand in feats:
+                    P = R[n]
+                    pos, rev, st = state[n]
+                    Fabs = feat_positions(spans)
+                    lab = f"{len(spans)}span:{state_of(Fabs, 0, pos)}"
+                    if seqid is not None and n != seqid:
+                        if name in gn:
+                            return ("fail", f"{tag}/collection.get_features/not-selected/{hsig}",
+                                    f"{ctx} returned {gn}; {name!r} belongs to {n!r}")
+                        continue
+                    must, may = membership(Fabs, 0, pos, partial) if pos else (False, True)
+                    if must and name not in gn:
+                        db = getattr(c, "annotation_db", None)
+                        why = "annotations-dropped" if (db is None or len(db) == 0) else f"missing/partial={partial}/{lab}"
+                        return ("fail", f"{tag}/collection.get_features/{why}/{hsig}",
+                                f"{ctx} returned {gn}; {name!r} {spans}{strand} on {n!r} must be returned "
+                                f"({n!r} displays indices {pos}); annotation_db={db!r}")
+                    if name in gn and not may:
+                        return ("fail", f"{tag}/collection.get_features/spurious/partial={partial}/{lab}/{hsig}",
+                                f"{ctx} returned {gn}; {name!r} {spans}{strand} on {n!r} does not touch indices {pos}")
+                fd = {f[0]: f for f in feats}
+                for f in got:
+                    name, n, bt, spans, strand = fd[f.name]
+                    pos, rev, st = state[n]
+                    exp = feat_residues(R[n], 0, spans, strand, set(pos))
+                    lab = f"{feat_kind(spans, strand)}:{state_of(feat_positions(spans), 0, pos)}"
+                    try:
+                        sl = str(f.get_slice())
+                    except Exception as e:
+                        return ("fail", f"{tag}/collection.get_slice/raises:{type(e).__name__}/{lab}/{hsig}",
+                                f"{ctx}: get_slice of {name!r} map={f.map} raised {type(e).__name__}: {e}; expected {exp!r}")
+                    if sl != exp:
+                        return ("fail", f"{tag}/collection.get_slice/residues/{lab}/{hsig}",
+                                f"{ctx}: {name!r} {spans}{strand} on {n!r} map={f.map} slices to {sl!r}, spec {exp!r}")
+                    nontrivial = nontrivial or bool(exp)
+        return ("ok", nontrivial)
+    # a sequence taken out of the collection, possibly sliced / reverse complemented once more
+    _, n, sop = term
+    P = R[n]
+    pos, rev, st = state[n]
+    try:
+        x = c.get_seq(n)
+    except Exception as e:
+        return ("fail", f"{tag}/get_seq/raises:{type(e).__name__}/{hsig}", f"{case}: get_seq raised {type(e).__name__}: {e}")
+    ops = list(hist)
+    if sop is not None:
+        pos, rev, st = view_apply(P, pos, rev, st, sop)
+        ops.append(sop)
+        try:
+            x = real_seq_apply(x, sop)
+        except Exception as e:
+            return ("fail", f"{tag}/seq/history/{op_kind(sop)}/raises:{type(e).__name__}/{hsig}",
+                    f"{case}: {sop} on get_seq({n!r}) raised {type(e).__name__}: {e}")
+    if str(x) != display(P, pos, rev):
+        return ("skip",)
+    fdict = {f[0]: (f[0], f[2], f[3], f[4]) for f in feats if f[1] == n}
+    others = foreign_features(x, [f[0] for f in feats if f[0] not in fdict])
+    if others:
+        return ("fail", f"{tag}/seq.get_features/other-sequence-feature/{hsig}",
+                f"{case}: get_seq({n!r}) (displaying {str(x)!r}).get_features(allow_partial=True) returns {others}, "
+                f"features of other sequences")
+    db = getattr(x, "annotation_db", None)
+    if (db is None or len(db) == 0) and any(membership(feat_positions(f[2]), 0, pos, True)[0] for f in fdict.values()):
+        return ("fail", f"{tag}/seq/annotations-dropped/{hsig}",
+                f"{case}: the sequence {n!r} taken out of the collection (displaying {str(x)!r}) has no annotations "
+                f"(annotation_db={db!r})")
+    sig = ("rev" if rev else "fwd") + ("-sub" if len(pos) < len(P) else "-whole") + "/" + hsig
+    return check_queries(x, case, tag + "/seq", sig, P, 0, pos, rev, st, fdict)
+
+
 BOUNDED = {
     "aln_views": {
         "gen": gen_aln, "contract": contract_aln,
@@ -906,6 +1197,30 @@ BOUNDED = {
                  "per seqid, on_alignment x allow_partial; every returned feature sliced and projected onto every row",
         "rule": "a case = (root, load mode, feature set, history); non-trivial when some returned feature has a "
                 "non-empty expected slice",
+    },
+    "aln_to_seqs": {
+        "gen": gen_aln_seqs, "contract": contract_aln_seqs,
+        "functions": ["Alignment.get_seq", "Alignment.degap", "SequenceCollection.get_features", "Sequence.degap",
+                      "Sequence.get_features on the sequence taken out of an alignment view"],
+        "bound": "the aln_views roots and features; alignment histories: root, rc, copy, every column slice, slice+rc, "
+                 "rc+slice (quick: reduced); then get_seq(name) or degap().get_seq(name) for every row, and on the "
+                 "resulting sequence every window x allow_partial as in seq_views; degap(): the collection is queried too",
+        "rule": "a case = (root, alignment history, terminal); non-trivial when some returned feature has a non-empty "
+                "expected slice",
+    },
+    "coll_views": {
+        "gen": gen_coll, "contract": contract_coll,
+        "functions": ["SequenceCollection.add_feature", "SequenceCollection.get_features", "SequenceCollection.rc",
+                      "SequenceCollection.degap", "SequenceCollection.copy", "SequenceCollection.get_seq",
+                      "Sequence.get_features / Feature.get_slice on collection members -- old (alignment.py) and new "
+                      "(new_alignment.py) collections"],
+        "bound": "collections of 2 sequences (ungapped 6+6, gapped 8+8), two features per sequence (1- and 2-span, both "
+                 "strands), added through the collection or attached as a ready db; collection histories of depth <= 2 "
+                 "over {rc, deepcopy, copy (old), degap}; then the collection is queried (all / per seqid x allow_partial) "
+                 "or a member is taken out, optionally sliced (every step-1 slice; quick: reduced) or reverse "
+                 "complemented, and queried with every window x allow_partial",
+        "rule": "a case = (type, root, load mode, collection history, terminal); non-trivial when some returned feature "
+                "has a non-empty expected slice",
     },
     "seq_add_on_view": {
         "gen": gen_addview, "contract": contract_addview,
